@@ -515,16 +515,30 @@ theorem truncM_eq_trunc (t : IType) (s : Style) (rs : RStyle) {tr : K → Int} (
 theorem roundM_eq_round (t : IType) (s : Style) (rs : RStyle) {tr : K → Int} (x e : K) (h : NoWrap t tr x) :
     roundM t s rs tr x e = round s rs tr x e := roundM_eq s rs e h
 
-/-- `NoWrap` holds for every signed target type (overflow at the ends of the range is outside the model) and for an
-    unsigned one whenever the argument is non-negative and `I(val) + 2` is a value of the type -/
+/-- `NoWrap` holds for `int` and wider signed target types (overflow at the ends of the range is undefined behaviour,
+    outside the model), for every type when `I(val)-1 … I(val)+2` (and 1) are values of it, and for an unsigned one
+    whenever the argument is non-negative and `I(val) + 2` is a value of the type -/
 theorem noWrap_cases (t : IType) {tr : K → Int} (htr : IsTrunc tr) (x : K)
-    (h : t.signed = true ∨ (0 ≤ x ∧ tr x + 2 < 2 ^ t.bits)) : NoWrap t tr x := by
-  rcases h with h | ⟨h0, hhi⟩
-  · exact noWrap_signed h tr x
+    (h : (t.signed = true ∧ 32 ≤ t.bits) ∨
+         (0 < t.bits ∧ t.fits (tr x - 1) = true ∧ t.fits (tr x + 2) = true ∧ t.fits 1 = true) ∨
+         (t.signed = false ∧ 0 ≤ x ∧ tr x + 2 < 2 ^ t.bits)) : NoWrap t tr x := by
+  rcases h with ⟨h, hw⟩ | ⟨hb, h1, h2, h3⟩ | ⟨hu, h0, hhi⟩
+  · exact noWrap_signed h hw tr x
+  · exact noWrap_of_fits hb tr x h1 h2 h3
   · have h1 := (htr x).1 h0
-    refine noWrap_unsigned tr x (not_lt.mpr h1.1) ?_ hhi
+    refine noWrap_unsigned hu tr x (not_lt.mpr h1.1) ?_ hhi
     have : ((0 : Int) : K) < ((tr x + 1 : Int) : K) := by push_cast; linarith
     have := Int.cast_lt.mp this; omega
+
+/-- **`round` for every integer target type and every argument whose integer part is a value of the type** (also beyond
+    the largest / smallest value of the type and in (-1,0) for an unsigned type): whenever the mathematical result — the
+    one all the theorems above describe — is a value of the type, it is returned.  Before
+    fixes/C17_round_range_end.patch this failed above the largest value: `round<unsigned char>(255.25)` was 0 and
+    `round<signed char>(127.25)` was -128 (`roundOld_range_end`); for `int` the neighbour `lower+1` overflowed. -/
+theorem round_of_fits (t : IType) (hb : 0 < t.bits) (s : Style) (rs : RStyle) (tr : K → Int) (x e : K)
+    (h0 : t.fits (tr x) = true) (hr : t.fits (round s rs tr x e) = true) :
+    roundM t s rs tr x e = round s rs tr x e := by
+  rw [roundM_eq_wrap s rs tr x e (IType.wrap_of_fits hb _ h0), IType.wrap_of_fits hb _ hr]
 
 /-- the conversion `I(val)` of an argument in (-1,0) is 0 -/
 theorem tr_eq_zero_of_neg {tr : K → Int} (htr : IsTrunc tr) (x : K) (hx1 : -1 < x) (hx0 : x < 0) : tr x = 0 := by
@@ -609,6 +623,27 @@ theorem trunc_unsigned_neg_up (t : IType) (ht : t.signed = false) (hb : 0 < t.bi
   have hng : ¬ x > ((0 : Int) : K) := by push_cast; exact not_lt.mpr (le_of_lt hx0)
   rcases hrs with h | h <;> subst h <;> simp only [truncM, hng, if_false, hup]
 
+/-- the same with the hypothesis in the form of the check's domain predicate: the argument is not equal within epsilon
+    to the integer -1 below it (otherwise the documented result is -1, which the type does not have; `truncUnrep`
+    in Driver/C17.lean and the harness leave that case out) -/
+theorem trunc_unsigned_neg_up_doc (t : IType) (ht : t.signed = false) (hb : 0 < t.bits) (s : Style) (rs : RStyle)
+    (hrs : rs = .upward ∨ rs = .towardZero) {tr : K → Int} (htr : IsTrunc tr) (x e : K) (hx1 : -1 < x) (hx0 : x < 0)
+    (hL : eqS s (((-1 : Int) : Int) : K) x e = false) :
+    truncM t s rs tr x e = 0 := by
+  apply trunc_unsigned_neg_up t ht hb s rs hrs htr x e hx1 hx0
+  intro hs; subst hs
+  have hp : (2 : Int) ≤ 2 ^ t.bits := by
+    calc (2 : Int) = 2 ^ 1 := by norm_num
+      _ ≤ 2 ^ t.bits := pow_le_pow_right₀ (by norm_num) hb
+  have hM : (1 : K) ≤ (((2 : Int) ^ t.bits - 1 : Int) : K) := by exact_mod_cast (by omega : (1 : Int) ≤ 2 ^ t.bits - 1)
+  rw [Bool.eq_false_iff, Ne, eqS_iff] at hL
+  simp only [tol] at hL
+  push_cast at hL
+  rw [abs_of_neg (by linarith : (-1 : K) - x < 0), abs_of_neg hx0, abs_neg, abs_one,
+    min_eq_right (by linarith : -x ≤ (1 : K))] at hL
+  have := not_le.mp hL
+  linarith
+
 /-- unsigned target, argument in (-1,0): `round` returns 0 where the mathematical result is 0, and the largest value
     of the type where it is -1 (the nearest integer is then not a value of the type) -/
 theorem round_unsigned_neg (t : IType) (ht : t.signed = false) (hb : 0 < t.bits) (s : Style) (rs : RStyle)
@@ -621,8 +656,7 @@ theorem round_unsigned_neg (t : IType) (ht : t.signed = false) (hb : 0 < t.bits)
       _ ≤ 2 ^ t.bits := pow_le_pow_right₀ (by norm_num) hb
   have hw : roundM t s rs tr x e = t.wrap (round s rs tr x e) := by
     apply roundM_eq_wrap
-    · rw [htr0]; exact IType.wrap_of_range 0 (by omega) (by omega)
-    · rw [htr0]; exact IType.wrap_of_range _ (by omega) (by omega)
+    rw [htr0]; exact IType.wrap_of_range ht 0 (by omega) (by omega)
   have hwi := (round_within s rs htr x e h0).1
   rw [abs_lt] at hwi
   have a : ((-2 : Int) : K) < ((round s rs tr x e : Int) : K) := by push_cast; linarith
@@ -631,7 +665,7 @@ theorem round_unsigned_neg (t : IType) (ht : t.signed = false) (hb : 0 < t.bits)
   have b' := Int.cast_lt.mp b
   have hr : round s rs tr x e = 0 ∨ round s rs tr x e = -1 := by omega
   rcases hr with hr | hr
-  · left; refine ⟨hr, ?_⟩; rw [hw, hr]; exact IType.wrap_of_range 0 (by omega) (by omega)
+  · left; refine ⟨hr, ?_⟩; rw [hw, hr]; exact IType.wrap_of_range ht 0 (by omega) (by omega)
   · right; refine ⟨hr, ?_⟩; rw [hw, hr]; exact IType.wrap_neg_one ht
 
 -- -4/5 with the absolute epsilon 3/10 truncated upward: the argument is within epsilon of the integer -1 below it.  With
@@ -724,7 +758,9 @@ theorem rat_trunc_unsigned (s : Style) (rs : RStyle) (x e : ℚ) :
     signed `t`, and for an unsigned `t` with a non-negative argument whose integer part plus 2 is a value of `t`, these
     are `roundRat` / `truncRat`, about which the theorems above speak -/
 theorem rat_roundM_truncM_eq (t : IType) (s : Style) (rs : RStyle) (x e : ℚ)
-    (h : t.signed = true ∨ (0 ≤ x ∧ trRat x + 2 < 2 ^ t.bits)) :
+    (h : (t.signed = true ∧ 32 ≤ t.bits) ∨
+         (0 < t.bits ∧ t.fits (trRat x - 1) = true ∧ t.fits (trRat x + 2) = true ∧ t.fits 1 = true) ∨
+         (t.signed = false ∧ 0 ≤ x ∧ trRat x + 2 < 2 ^ t.bits)) :
     roundRatM t s rs x e = roundRat s rs x e ∧ truncRatM t s rs x e = truncRat s (!t.signed) rs x e :=
   have hw := noWrap_cases t trRat_isTrunc x h
   ⟨roundM_eq_round t s rs x e hw, truncM_eq_trunc t s rs x e hw⟩
@@ -738,6 +774,10 @@ theorem rat_round_unsigned_neg (t : IType) (ht : t.signed = false) (hb : 0 < t.b
     (roundRat s rs x e = 0 ∧ roundRatM t s rs x e = 0) ∨
     (roundRat s rs x e = -1 ∧ roundRatM t s rs x e = 2 ^ t.bits - 1) :=
   round_unsigned_neg t ht hb s rs trRat_isTrunc x e h0 hx1 hx0
+/-- the op line `round` for every target type: a representable mathematical result is returned (range ends included) -/
+theorem rat_round_of_fits (t : IType) (hb : 0 < t.bits) (s : Style) (rs : RStyle) (x e : ℚ)
+    (h0 : t.fits (trRat x) = true) (hr : t.fits (roundRat s rs x e) = true) :
+    roundRatM t s rs x e = roundRat s rs x e := round_of_fits t hb s rs trRat x e h0 hr
 
 -- the driver's own evaluation of `trunc f64 u8 absolute towardZero -1:-1 1:-3` is 0; without the hypothesis on epsilon of
 -- the relative-strong style the result can be the largest value: `trunc f64 u8 relativeStrong upward -1:-1 1:10`
@@ -838,14 +878,22 @@ theorem fp_round_trunc_int (s : Style) (rs : RStyle) (n i m : Int) (hm : 0 ≤ m
     round s rs FP.trunc (.fin n : FP f) (.fin m) = i ∧ trunc s false rs FP.trunc (.fin n : FP f) (.fin m) = i :=
   FP.round_trunc_int s rs n i m hm hT hI
 
-/-- the same for the functions the driver executes (`roundM` / `truncM`), signed target types: nothing wraps around -/
+/-- the same for the functions the driver executes (`roundM` / `truncM`), signed target types in which nothing wraps
+    around (`int`, `long`; the narrow ones when `i-1 … i+2` are values of the type) -/
 theorem fp_roundM_truncM_int (t : IType) (ht : t.signed = true) (s : Style) (rs : RStyle) (n i m : Int) (hm : 0 ≤ m)
-    (hT : ((i : Int) : FP f) = .fin n) (hI : FP.trunc (.fin n : FP f) = i) :
+    (hT : ((i : Int) : FP f) = .fin n) (hI : FP.trunc (.fin n : FP f) = i)
+    (hw : NoWrap t FP.trunc (.fin n : FP f)) :
     roundM t s rs FP.trunc (.fin n : FP f) (.fin m) = i ∧ truncM t s rs FP.trunc (.fin n : FP f) (.fin m) = i := by
-  have hw := noWrap_signed ht FP.trunc (.fin n : FP f)
   have h := fp_round_trunc_int s rs n i m hm hT hI
   rw [roundM_eq s rs _ hw, truncM_eq s rs _ hw, ht]
   exact h
+
+/-- in the rounding arithmetic too, `round` returns the mathematical result whenever it and `I(val)` are values of the
+    target type (every type, range ends included) -/
+theorem fp_round_of_fits (t : IType) (hb : 0 < t.bits) (s : Style) (rs : RStyle) (x e : FP f)
+    (h0 : t.fits (FP.trunc x) = true) (hr : t.fits (round s rs FP.trunc x e) = true) :
+    roundM t s rs FP.trunc x e = round s rs FP.trunc x e := by
+  rw [roundM_eq_wrap s rs FP.trunc x e (IType.wrap_of_fits hb _ h0), IType.wrap_of_fits hb _ hr]
 
 end floating
 
